@@ -1,5 +1,6 @@
 (** Pins/C02.v — the statements of the C02 theorems, pinned. *)
 From PdfV Require Import Base.Prelude Gen.Generated XRef.Model XRef.Spec XRef.MergeProofs XRef.StreamProofs XRef.FrontProofs Properties.C02.
+Set Warnings "-notation-overridden".   (* also ends the import list for the dependency scanner of tools/vplib *)
 
 Check C02_merge_latest : forall (h : history) (secss : list (list section)) (size n : N),
   Forall2 represents secss h -> wf_history h -> n < size ->
